@@ -26,8 +26,8 @@ ASSUMPTIONS = [
 ]
 ANCHOR_FILES = ["gpytorch/models/", "gpytorch/module.py", "gpytorch/utils/memoize.py", "gpytorch/variational/", "gpytorch/kernels/grid_interpolation_kernel.py", "gpytorch/kernels/inducing_point_kernel.py", "gpytorch/kernels/grid_kernel.py"]
 
-QUICK_FAMS = ["default", "default_iterative", "ski", "ski_dynamic_grid", "sgpr", "batch", "svgp_whitened", "svgp_unwhitened", "lmc_multitask"]
-ALL_FAMS = ["default", "default_iterative", "batch", "ski", "ski_dynamic_grid", "sgpr", "svgp_whitened", "svgp_unwhitened", "svgp_meanfield", "svgp_batch_decoupled", "lmc_multitask"]
+QUICK_FAMS = ["default", "default_iterative", "batch_nan", "ski", "ski_dynamic_grid", "sgpr", "batch", "svgp_whitened", "svgp_unwhitened", "lmc_multitask"]
+ALL_FAMS = ["default", "default_iterative", "batch", "batch_nan", "ski", "ski_dynamic_grid", "sgpr", "svgp_whitened", "svgp_unwhitened", "svgp_meanfield", "svgp_batch_decoupled", "lmc_multitask"]
 STATE_CHANGING = {"train_step", "set_data", "set_targets", "load_sd"}
 EXACT_ALPHA = ["pred", "pred_fpv", "pred_nodetach", "pred_skipvar", "pred_eager", "pred_batch", "train_step", "set_data", "set_targets", "load_sd", "load_sd_same", "fantasy", "prior", "backward", "train_eval"]
 VAR_ALPHA = ["pred", "pred_batch", "pred_skipvar", "pred_eager", "train_step", "load_sd", "load_sd_same", "prior", "backward", "train_eval"]
@@ -40,6 +40,8 @@ VAR_FANTASY_FAMS = {"svgp_whitened", "svgp_unwhitened"}
 def _alpha(fam):
     if fam in VAR_FANTASY_FAMS:
         return VAR_ALPHA + ["var_fantasy"]
+    if fam == "batch_nan":
+        return ["pred", "pred_fill", "pred_fpv", "pred_nodetach", "pred_eager", "train_step", "set_targets", "load_sd", "load_sd_same", "prior", "train_eval"]
     if fam == "lmc_multitask":
         return [o for o in VAR_ALPHA if o != "pred_batch"]  # LMC latents do not broadcast against an extra input batch (explicit error)
     return VAR_ALPHA if fam in VAR_FAMS else EXACT_ALPHA
